@@ -30,6 +30,11 @@ CLAIMED = {
          "pipeline, extracted from the source over abstract cardinality/probability classes and compared with the property statement; "
          "twin of the direct/inverse feature inference. Necessary conditions only: conformance under ShEx semantics is not decided", "4 C03",
          "decision-table extraction by abstract evaluation of the AST, loop-totality lint, twin comparison (R-TABLE, R-LOOP, R-TWIN)"),
+ "C13": ("non-interference policy decided for all inputs: for every option, the effect classes that are control-dependent on it (difference of "
+         "the arms of every test it reaches, through callees, method slots and selected classes) lie inside its documented scope, and its value "
+         "never flows into model fields; tuning order, rounding conversions, OR construction, class-level state. Decides which code an option can "
+         "influence, not the magnitude of the difference between two runs", "4 C13",
+         "information-flow (taint) analysis + control-dependence regions + effect summaries over the call graph, compared with an allow-list per option (R-EFFECT); ordering/shape lints (R-ORDER, R-TABLE, R-FLOW, R-GLOBAL)"),
 }
 NA_REASON = {
  "C08": "relates the outputs of different parsers (rdflib readers, two hand-written scanners, TSV splitter, decompressors) on "
